@@ -130,7 +130,7 @@ int main(int argc, char **argv) {
     if (ok) {
         HistWeights w;
         w.emit = 10; w.discover = 5; w.max_emit = 12; w.probe = 1; w.hello = 1; w.shell = 1; w.odd_tos = false;
-        ok = run_cases(a, ev, "c06-histories", a.n(4000, 100000), 100, hg::hist_case(w, 2, 25), run);
+        ok = run_cases(a, ev, "c06-histories", a.n(20000, 200000), 100, hg::hist_case(w, 2, 25), run);
     }
     // over-declared family
     if (ok) {
@@ -148,7 +148,7 @@ int main(int argc, char **argv) {
             c.ops = {d, filler, e};
             return c;
         });
-        ok = run_cases(a, ev, "c06-overdeclared", a.n(1500, 30000), 100, gen, run);
+        ok = run_cases(a, ev, "c06-overdeclared", a.n(8000, 60000), 100, gen, run);
     }
     ev.write(a.out);
     return ok ? 0 : 1;
